@@ -44,17 +44,17 @@ CLAIMED = {
  'C14': ('Lean 4 proof: decision logic of the arbitration + range invariant over all histories',
          'arbitrate_none/one/two/nan, arbitrate_range, recorded_in_range and recorded_in_range_segments (every recorded duty cycle of every history within [-1,1], also when each run has its own controller), compute_applies_control, conflict_stops. Tie: rule sets with overlapping windows and out-of-range proposals, whole simulations (lock-step) and stub-rule arbitration on the real PWMControl.'),
  'C15': ('Lean 4 proof: window/value characterisation of the four rules + root of the current law (cross-module with C08)',
-         'constant_window, reach_rule, ramp_rule (+ endpoints), limit_rule, limit_root, limit_outside_deadzone, limit_current_exact (the motor current law at the proposed duty cycle equals the limit). Tie: controlled simulations, documented formulas recomputed from the recorded state, recorded current = limit while in force.'),
+         'constant_window, reach_rule, ramp_rule (+ endpoints), limit_rule, the window edges belong to the windows (reach_at_start, reach_before_start, ramp_at_target_rule, ramp_beyond_target, limit_at_target, limit_beyond_target, constant_at_edges), limit_root, limit_outside_deadzone, limit_current_exact (the motor current law at the proposed duty cycle equals the limit). Tie: controlled simulations, documented formulas recomputed from the recorded state, recorded current = limit while in force; rules asked for their proposal by hand on dyadic numbers that hit the window edges exactly, compared with the documented value and with Rule.apply of the model.'),
  'C16': ('Lean 4 proof: the stopped loop is the unstopped loop over a prefix of the grid; predicate false on every strict prefix, true at the end if stopped early',
          'stop_prefix, stop_times, stopNow_stopCond. Tie: thresholds placed between consecutive readings of the unstopped run, stopped history compared with the prefix and with the model.'),
  'C17': ('Lean 4 proof: bookkeeping invariant (one sample per instant per present key) by induction over update/reset sequences; advertised iff recorded for all kinds x data subsets',
          'advertised_iff_records, lengths_inv, export_total, last_is_attr. Tie: all element kinds x optional-data subsets x schedules; keys/lengths vs model; export and snapshot executed on every simulated powertrain.'),
  'C18': ('Lean 4 proof: interpolation at knots / between knots on strictly increasing axes, commutation with unit conversion, column selection logic',
-         'interp_at_knot, interp_between / interp_between_at (any segment of an unequally spaced axis), interp_within, interp_outside_left/right, cell_linear, columns_subset/complete, reports_iff, sortOrder_matches. Tie: real snapshot tables and re-read CSV exports compared cell by cell with the oracle and the model.'),
+         'interp_at_knot, interp_between / interp_between_at (any segment of an unequally spaced axis), interp_within, interp_not_sample / interp_offset (no snapping to a neighbouring sample), interp_outside_left/right, cell_linear, columns_subset/complete, reports_iff, sortOrder_matches. Tie: real snapshot tables and re-read CSV exports compared cell by cell with the oracle and the model.'),
  'C19': ('Lean 4 proof: validity invariant over all straight-line programs of quantity operations (induction on the program) + constructor iffs',
          'valid_inv (every live object valid after every step of every program), sub_none_unreachable, mk_ok_iff, motorCtor_ok_iff, setPwm_ok_iff. Tie: random 40-step programs with store inspection on both sides, tiny-value stream (finds K4), constructor boundary cases.'),
  'C20': ('Lean 4 proof: chain walk (with fuel) is linked by drives and suffix-closed; error cases; self-locking flag iff',
-         'chain_head, chain_links, chain_suffix, assemble_elements, assemble_errors, selfLocking_iff. Tie: declaration sequences producing chains (with re-routing and duplicate names), every motor assembled, read-only and later-declaration checks on the real Powertrain.'),
+         'chain_head, chain_links, chain_suffix, assemble_elements, assemble_errors, selfLocking_iff, selfLocking_of_flagged_worm. Tie: declaration sequences producing chains (with re-routing and duplicate names), every motor assembled, read-only and later-declaration checks on the real Powertrain.'),
 }
 
 checks = []
